@@ -7,6 +7,7 @@ use parking_lot::RwLock;
 use std::collections::hash_map::Entry;
 use std::collections::HashMap;
 use std::sync::Arc;
+use tokio::sync::oneshot;
 
 /// Provides an interface over the subscription manager actor.
 pub struct SubscriptionManager {
@@ -54,8 +55,10 @@ impl SubscriptionManager {
             return Err(CreateSubscriptionError::MustBeInSameProjectAsTopic);
         }
 
-        // Create the subscription and store it in state.
-        let subscription = {
+        // Create the subscription and store it in state. Before it becomes visible,
+        // its actor is asked to attach it to the topic, so that the attachment neither
+        // depends on this caller sticking around nor can be overtaken by a deletion.
+        let (subscription, attached) = {
             let mut state = self.state.write();
             // Create a delegate that the subscription can use to call back out.
             let delegate = SubscriptionManagerDelegate::new(Arc::clone(&self.state));
@@ -65,9 +68,9 @@ impl SubscriptionManager {
         #[cfg(deltio_verif)]
         crate::verif::point("create_sub.before_attach").await;
 
-        topic
-            .attach_subscription(subscription.clone())
+        attached
             .await
+            .unwrap_or(Err(AttachSubscriptionError::Closed))
             .map_err(|e| match e {
                 AttachSubscriptionError::Closed => CreateSubscriptionError::Closed,
             })?;
@@ -148,7 +151,13 @@ impl State {
         topic: Arc<Topic>,
         push_registry: PushSubscriptionsRegistry,
         delegate: SubscriptionManagerDelegate,
-    ) -> Result<Arc<Subscription>, CreateSubscriptionError> {
+    ) -> Result<
+        (
+            Arc<Subscription>,
+            oneshot::Receiver<Result<(), AttachSubscriptionError>>,
+        ),
+        CreateSubscriptionError,
+    > {
         if let Entry::Vacant(entry) = self.subscriptions.entry(info.name.clone()) {
             self.next_id += 1;
             let internal_id = self.next_id;
@@ -159,8 +168,9 @@ impl State {
                 push_registry,
                 delegate,
             ));
+            let attached = subscription.begin_attach();
             entry.insert(subscription.clone());
-            return Ok(subscription);
+            return Ok((subscription, attached));
         }
 
         Err(CreateSubscriptionError::AlreadyExists)
